@@ -1,4 +1,5 @@
 """C11 - invoked sessions start, communicate and stop as specified (DESIGN 4/C11)."""
+import re
 from .. import facts, lock, path, cfg as cfgm, tab
 from ..facts import AnalysisBroken, strip, sub, locstr
 from . import _conc
@@ -240,6 +241,13 @@ def run(rep, tier):
         raise AnalysisBroken('invoker nodes missing from the lock-order graph')
     if not mine:
         rep.ok('R11.5', 'acyclic', 'no cycle through T(USCXMLInvoker::run), USCXMLInvoker::_mutex or child/parent session locks (%d edges)' % len(c.lo.edges))
+
+    # ---- R11.4 (second part): the reserved terms are compared exactly
+    io4 = fb.fn('uscxml::SCXMLIOProcessor::eventFromSCXML')
+    ci = [n for n in io4.walk() if n['k'] == 'CallExpr' and n.get('callee', {}).get('q', '').split('::')[-1] in ('iequals', 'istarts_with', 'strcasecmp') and any(
+        x['k'] == 'StringLiteral' and (x.get('str') or '').startswith('#_') and re.search(r'[A-Za-z]', x.get('str') or '') for x in sub(n))]
+    rep.check(not ci, 'R11.4', 'eventFromSCXML|reserved terms compared exactly', locstr(ci[0]) if ci else io4.where(), 'the special targets #_internal, #_parent, #_scxml_ are compared %s' % (
+        'exactly' if not ci else 'IGNORING CASE: a send to an invocation whose id is "Parent" or "INTERNAL" is routed to the parent session / the own internal queue'))
 
     # ---- R11.8 an exited state loses its invocation also when it is re-entered before the macrostep ends
     rep.rule('R11.8', 'cancelled exactly once when the state is exited: a state that leaves the configuration is un-invoked or at least removed from the set of invoked states in the exit phase; deciding at macrostep end from "invoked and not in the configuration" misses a state that was exited and re-entered in between')
